@@ -29,13 +29,20 @@ def run (j : Json) : Except String Json := do
   let agree := resEq mres c.implRes && logAgree
   let probes ← implProbes c.implLog
   let modesOK := checkModes fuel c.spec probes
-  let shapeOK := match c.implRes with
+  -- "embedded T/Spec-like objects are replaced by their values": a result the codec cannot
+  -- encode (it still contains a T, Spec or other glom object) where the model yields a plain value
+  let leaked := match c.implRes, mres with
+    | .error e, .ok _ => e.startsWith "Unencodable"
+    | _, _ => false
+  let shapeOK := !leaked && (match c.implRes with
     | .ok v => fillShapeOK c.spec v
-    | .error _ => true
+    | .error _ => true) &&
+    -- argument-position / Fill containers: the rebuilt value is the one computed from the current target
+    (if hasArgContainer (fuelFor c.spec) c.spec then resEq mres c.implRes else true)
   let mprobes := probesOf mlog
   return Json.mkObj [("agree", agree), ("holds", modesOK && shapeOK),
     ("why", if !modesOK then "a probe recorded a mode that is not the static mode of its position"
-            else if !shapeOK then "Fill result does not have the shape of the spec" else ""),
+            else if !shapeOK then "a Fill / argument-position container was not rebuilt with the same shape from the values of its T/Spec leaves for the current target" else ""),
     ("model", Json.mkObj [("res", resToJson mres), ("log", Json.arr mlogJ.toArray)]),
     ("static", Json.arr ((annotF fuel .auto c.spec).map (fun x => Json.arr #[toJson x.1, Json.str (modeName x.2)])).toArray),
     ("branch", Json.str (s!"probes={mprobes.length}" ++ (match mres with | .ok _ => "-ok" | .error e => s!"-err-{e}")))]
